@@ -32,6 +32,7 @@
   `str(int)` raising for ints of more than 4300 digits (worlds are small), html / latex writers.
 -/
 import Ptx.Lang.Write
+import Ptx.Lang.ParseWF
 namespace Ptx.Render
 open Ptx Ptx.Sym Ptx.Write
 
@@ -246,5 +247,25 @@ end
 def WF (t : RTree) : Bool := depthsOK true t && closureOK t
 
 end RTree
+
+/-! ### vocabulary of the node-level injectivity statement (C19_render_injective) -/
+
+/-- a node as the classes of proof/common.py build them, as far as the template can tell: access worlds come
+    in pairs, the sentence is constructible (arities applied exactly, indexes within the maxima), a quit flag
+    sits on the bare flag node only, and the node is not the empty attribute record (which the template writes
+    like the quit-flag node).  The driver evaluates it on every real tree. -/
+def RNode.regular (mx : MaxIdx) (n : RNode) : Bool :=
+  (n.world1.isSome == n.world2.isSome) &&
+  (match n.sentence with | some s => Parse.arityOK s && Parse.indexOK mx s | none => true) &&
+  (n.flag != some .quit || n == RNode.quitNode) && n != {}
+
+mutual
+/-- every node of the tree satisfies `p` -/
+def RTree.allNodes (p : RNode → Bool) : RTree → Bool
+  | .mk _ ns cs _ => ns.all p && RTree.allNodesL p cs
+def RTree.allNodesL (p : RNode → Bool) : List RTree → Bool
+  | [] => true
+  | c :: r => RTree.allNodes p c && RTree.allNodesL p r
+end
 
 end Ptx.Render
